@@ -1146,7 +1146,9 @@ func (c *Conversation) encode(msg []byte) [][]byte {
 	copy(b64, msgPrefix)
 	b64[len(b64)-1] = '.'
 
-	if c.FragmentSize < minFragmentSize || len(b64) <= c.FragmentSize {
+	// A fragment needs room for at least one byte of payload besides the
+	// minFragmentSize bytes of framing; smaller sizes disable fragmentation.
+	if c.FragmentSize <= minFragmentSize || len(b64) <= c.FragmentSize {
 		// We can encode this in a single fragment.
 		return [][]byte{b64}
 	}
